@@ -366,6 +366,28 @@ def u_read_balance_any(I):
     ctx.assume(NZ(0) == z3.BoolVal(False))
     rd.fields['tree'] = [[ts.tok('ReactionName'), ctx.fresh('rule_name', 'str')], [ts.tok('Reactants'), ts.opaque('ReactantQuery')], [ts.tok('TransformationChain'), ts.opaque('ConnectivityChange')]]
     out = run_target(I, RQR, 'ReactionQueryReader.Read', [], self_obj=rd)
+    # what NZ(n) MEANS (induction over its defining equations, on paper): some balance among the first n is non-zero.  Stated as two ground-instantiated
+    # schemas, so that an implementation that does not walk the list index by index (a comprehension, any(), a filter) is judged by the same specification
+    # instead of being refuted for not touching the ghost function.
+    k_ = z3.Int('k!nz')
+    sk = ctx.fresh('nonzero_witness', 'int')
+    ctx.assume_forall([k_], z3.Implies(z3.And(0 <= k_, k_ < n, R.ElemNum(ver, k_) != 0), NZ(n)), 'a non-zero balance makes NZ(n) true')
+    ctx.assume(z3.Implies(NZ(n), z3.And(0 <= sk, sk < n, R.ElemNum(ver, sk) != 0)))
+    terms, seen = [], set()
+
+    def walk(e):
+        if e.get_id() in seen:
+            return
+        seen.add(e.get_id())
+        if z3.is_app(e):
+            if z3.is_int(e) and e.num_args() == 0 and e.decl().kind() == z3.Z3_OP_UNINTERPRETED and e.sexpr() not in [t.sexpr() for t in terms]:
+                terms.append(e)
+            for c_ in e.children():
+                walk(c_)
+    for f_ in list(ctx.pc):
+        if is_z3(f_):
+            walk(f_)
+    ctx.instantiate(terms[:40])
     check_outcome(I, out, raises={'*': NZ(n)}, returns=lambda r: [('a balanced rule is returned as a reaction query', z3.BoolVal(isinstance(r, Obj) and r.cls.name == 'ReactionQuery'))], site='Read')
     return {'inputs': {}}
 
